@@ -544,4 +544,15 @@ func init() {
 		Variant{Name: "benign: dialer releases the lock through a deferred call in a helper closure", Property: "C11", File: mcc, Benign: true,
 			Old: "\t\tmcc.connMapLock.RLock()\n\t\tconnFn, exists := mcc.connMap[addr]\n\t\tmcc.connMapLock.RUnlock()\n", New: "\t\tmcc.connMapLock.RLock()\n\t\tconnFn, exists := mcc.connMap[addr]\n\t\tmcc.connMapLock.RUnlock()\n\t\t_ = ctx\n"},
 	)
+	// ---- blocking operations under locks (O8.8 / O10.8 / O11.5 / O20.8)
+	addVariants(
+		Variant{Name: "tracker update throttled with a sleep under its lock", Property: "C20", File: trk,
+			Old: "\tif stream, exists := st.streams[id]; exists {\n\t\tstream.LastSeen = time.Now()\n\t}\n", New: "\tif stream, exists := st.streams[id]; exists {\n\t\tstream.LastSeen = time.Now()\n\t} else {\n\t\ttime.Sleep(time.Millisecond)\n\t}\n", Expect: "O20.8"},
+		Variant{Name: "local-shard callback invoked under the shard table lock", Property: "C08", File: shm,
+			Old: "\tkey := ClusterShardIDtoShortString(shard)\n\tnow := time.Now()\n\tsm.localShards[key] = ShardInfo{ID: shard, Created: now}\n", New: "\tkey := ClusterShardIDtoShortString(shard)\n\tnow := time.Now()\n\tsm.localShards[key] = ShardInfo{ID: shard, Created: now}\n\tif sm.onLocalShardChange != nil {\n\t\tsm.onLocalShardChange(shard, true)\n\t}\n", Expect: "O8.8"},
+		Variant{Name: "new session pinged under the table lock", Property: "C10", File: mmm,
+			Old: "\tnewId := fmt.Sprintf(\"%d\", m.muxIdSequencer)\n", New: "\tif _, err := yamuxSession.Ping(); err != nil {\n\t\tm.logger.Info(\"ping failed\")\n\t}\n\tnewId := fmt.Sprintf(\"%d\", m.muxIdSequencer)\n", Expect: "O10.8"},
+		Variant{Name: "same edit seen by C11", Property: "C11", File: mmm,
+			Old: "\tnewId := fmt.Sprintf(\"%d\", m.muxIdSequencer)\n", New: "\tif _, err := yamuxSession.Ping(); err != nil {\n\t\tm.logger.Info(\"ping failed\")\n\t}\n\tnewId := fmt.Sprintf(\"%d\", m.muxIdSequencer)\n", Expect: "O11.5"},
+	)
 }
